@@ -136,10 +136,13 @@ def gen_case(rng, max_n=7, max_len=8, max_calls=4, stub=False, min_distinct=2):
         "calls": [gen_call(rng) for _ in range(rng.randint(0, max_calls))],
         "stub": rng.randrange(1 << 30) if stub else None,
     }
-    if rng.random() < 0.12:
+    if rng.random() < (0.25 if stub else 0.1):
         # token scoring where almost every column scores below zero: the sum-of-pairs score then grows with the
         # gap weight, which separates the two measurements of _iter from each other
         case.update(classes=False, sonar=True, scoredict_seed=rng.randrange(1 << 30), scoredict_kind="hostile")
+        case["seqs"] = [gen_word(rng, 1, max_len) for _ in range(rng.randint(3, max(3, min(6, max_n))))]
+        if not case["calls"]:
+            case["calls"] = [gen_call(rng)]
         for c in case["calls"]:
             if "gap_weight" in c:
                 c["gap_weight"] = rng.choice([1.0, 1.0, 0.5])
@@ -279,7 +282,7 @@ def run_impl(case):
             for b in toks:
                 # self scores are positive (a zero self-similarity divides by zero in align_pairwise: a guard)
                 if case.get("scoredict_kind") == "hostile":
-                    sd[a, b] = sd[b, a] if (b, a) in sd else (1.0 if a == b else -float(r.randint(1, 5)))
+                    sd[a, b] = sd[b, a] if (b, a) in sd else (1.0 if a == b else -float(r.randint(3, 9)))
                 else:
                     sd[a, b] = sd[b, a] if (b, a) in sd else float(r.randint(1, 5) if a == b else r.randint(-3, 4))
         kw["scoredict"] = sd
